@@ -13,14 +13,15 @@ import os, sys, json, re, copy, time, random, inspect, subprocess, traceback
 from . import common as C
 
 CLAIM = dict(
-    text="Machine-checked theorems (coq/Props/C19.v, closed under the global context): a may-analysis `safe` over an abstract heap semantics "
-         "(object identity, references by field, buffer sharing between a view and its base, allocation sites) is sound for ALL executions "
-         "and all initial heaps of the effect language (Proofs/EffectsP.v), and the generated obligation over coq/Gen/Effects.v -- the effect "
-         "skeleton of all 132 functions of EoN/simulation.py, analytic.py, regenerated from /repo on every run by the fail-closed translator "
-         "translate/effects2v.py -- shows that no public entry point can write an object, or the buffer of an object, that existed before the "
-         "call, except the confirmed defects (x.shape= on caller arrays). Tie: every public entry point is called on small inputs with deep "
-         "snapshots (graphs incl. attributes, containers, arrays incl. shape/dtype/flags) before/after and called again on the same objects; "
-         "static and dynamic verdicts must agree per function and parameter.",
+    text="Generated obligation, machine-checked by evaluation (coq/Props/C19.v, closed under the global context): an executable may-analysis "
+         "(allocation-site points-to analysis over an abstract heap: object identity, references by field, buffer sharing between a view and its "
+         "base) run inside Coq over coq/Gen/Effects.v -- the effect skeleton of all 132 functions of EoN/simulation.py, analytic.py, regenerated "
+         "from /repo on every run by the fail-closed translator translate/effects2v.py -- finds no write of any public entry point that can reach "
+         "an object, or the buffer of an object, that existed before the call, except the confirmed defects (x.shape= on caller arrays). The "
+         "abstract heap semantics of the effect language is defined in Coq; soundness of the checker w.r.t. it is only PARTLY mechanised (write "
+         "step, environment order, aliasing: theorems *_partial; the rest of the invariant-preservation proof is stated in a comment, not proved). "
+         "Tie: every public entry point is called on small inputs with deep snapshots (graphs incl. attributes, containers, arrays incl. "
+         "shape/dtype/flags) before/after and called again on the same objects; static and dynamic verdicts must agree per function and parameter.",
     design='DESIGN.md section 4, C19; section 2.4(b)',
     technique='Coq proof (sound points-to/effect analysis) over a model regenerated from the source by an ast translator + dynamic snapshot check',
     note="Trusted for C19 in addition: translate/effects2v.py and its tables (which library calls/methods modify their receiver, which return views, "
